@@ -862,6 +862,46 @@ example : exCall.storeMask = "bo@host.b".toList ∧ exCall.cfg = ⟨60, 3, 2, tr
     replyFrame exCall.env = (Gen.noticeCmd, "#chan".toList, []) ∧ exCall.action = false ∧ TextsFine exCall.texts := by
   decide
 
+/-! ## the bot's belief of its own hostmask and the hostmask the server relays with -/
+
+/-- relaying with the hostmask `p` instead of the believed one shifts the length by the difference -/
+theorem relayed_len (e : Env) (p : Str) (o : Out) :
+    blen (wireAs p o) + blen e.botPrefix = blen (wire e o) + blen p := by
+  have h1 : (':' : Char).utf8Size = 1 := by decide
+  have h2 : (' ' : Char).utf8Size = 1 := by decide
+  have h3 : ('\r' : Char).utf8Size = 1 := by decide
+  have h4 : ('\n' : Char).utf8Size = 1 := by decide
+  simp only [wire, wireAs, blen_cons, blen_append, blen_nil, h1, h2, h3, h4]; omega
+
+/-- The 512-byte theorem as the property states it — "once prefixed with the bot's own hostmask as the
+server relays it".  The arithmetic of `reply` uses `irc.prefix`, the bot's BELIEF; the statement about
+the relayed line needs the explicit hypothesis belief = truth (any true hostmask not longer than the
+believed one does as well).  That `irc.prefix` equals what a conformant server holds for the bot after
+any sequence of NICK / CHGHOST / JOIN … is what `C10.view_refines_partial` proves ("the bot's own prefix").
+When the belief is stale and shorter (`stale_belief_overflows`) full chunks overflow. -/
+theorem fits_512_relayed (e : Env) (hn : Normal e) (hT : TextsFine e.texts) (cfg : Cfg) (chunks : List Str) (s : Str)
+    (allowed : Nat) (s1 : Str) (p : Str) (hbelief : blen p ≤ blen e.botPrefix)
+    (hauto : cfg.moresLength = 0)
+    (hprep : prepare e cfg s = some (allowed, s1, false))
+    (hE : blen e.texts.emptyReply ≤ allowed)
+    (hcontract : chunks.flatten = munge s1) (hne : ∀ c ∈ chunks, c ≠ [])
+    (h4 : suffixReserve e.texts (blen s1) + (parse s1).maxSize + 4 ≤ allowed)
+    (hclean : cleanWrap chunks s1 (allowed - suffixReserve e.texts (blen s1)) = true) :
+    ∃ now stored, reply e cfg chunks s = .sent now stored ∧
+      ∀ o ∈ now ++ stored.getD [], blen (wireAs p o) ≤ 512 := by
+  obtain ⟨now, stored, h1, h2⟩ := fits_512_clean e hn hT cfg chunks s allowed s1 hauto hprep hE hcontract hne h4 hclean
+  refine ⟨now, stored, h1, fun o ho => ?_⟩
+  have := h2 o ho
+  have := relayed_len e p o
+  omega
+
+/-- a message that exactly fills 512 bytes for the believed hostmask is over 512 as soon as the true
+hostmask is longer -/
+theorem stale_belief_overflows (e : Env) (p : Str) (o : Out) (hfull : blen (wire e o) = 512)
+    (hstale : blen e.botPrefix < blen p) : 512 < blen (wireAs p o) := by
+  have := relayed_len e p o
+  omega
+
 /-! ## non-vacuity: a concrete chunked reply meets the hypotheses of the theorems above -/
 
 def exEnv : Env :=
